@@ -30,28 +30,28 @@ const (
 )
 
 type nilFlow struct {
-	c       *Ctx
-	funcs   []*ssa.Function
-	nonnil  map[*ssa.Function]map[int]bool
-	xor     map[*ssa.Function]bool // SUCC and FAILNIL together
-	succ    map[*ssa.Function]bool // every return: error provably non-nil, or value provably non-nil
-	failnil map[*ssa.Function]bool // every return: error provably nil, or value provably nil
-	xorWhy  map[*ssa.Function]string
-	gDeps     map[*ssa.Global][]*ssa.Function
-	nnGlobals map[*ssa.Global]bool // package-level pointer variables / tables whose (element) values are non-nil and never overwritten
-	maynil  map[*ssa.Function]map[int]bool
-	deref   map[*ssa.Function]map[int]bool
-	cgOut   map[ssa.CallInstruction][]*ssa.Function
-	extNon  map[string]bool
-	extMay  map[string]int
-	pairIdx map[*ssa.Function][2]int // (value index, error index) for XOR candidates
-	kf      *kindFlow
-	phase1  bool
-	tiCache map[[2]*ssa.BasicBlock]bool
-	factsCache map[*ssa.BasicBlock]map[ssa.Value]nilness
+	c            *Ctx
+	funcs        []*ssa.Function
+	nonnil       map[*ssa.Function]map[int]bool
+	xor          map[*ssa.Function]bool // SUCC and FAILNIL together
+	succ         map[*ssa.Function]bool // every return: error provably non-nil, or value provably non-nil
+	failnil      map[*ssa.Function]bool // every return: error provably nil, or value provably nil
+	xorWhy       map[*ssa.Function]string
+	gDeps        map[*ssa.Global][]*ssa.Function
+	nnGlobals    map[*ssa.Global]bool // package-level pointer variables / tables whose (element) values are non-nil and never overwritten
+	maynil       map[*ssa.Function]map[int]bool
+	deref        map[*ssa.Function]map[int]bool
+	cgOut        map[ssa.CallInstruction][]*ssa.Function
+	extNon       map[string]bool
+	extMay       map[string]int
+	pairIdx      map[*ssa.Function][2]int // (value index, error index) for XOR candidates
+	kf           *kindFlow
+	phase1       bool
+	tiCache      map[[2]*ssa.BasicBlock]bool
+	factsCache   map[*ssa.BasicBlock]map[ssa.Value]nilness
 	noInfeasible bool
-	nzCache map[string]bool
-	converged bool
+	nzCache      map[string]bool
+	converged    bool
 }
 
 func isNillable(t types.Type) bool {
@@ -590,8 +590,9 @@ func (nf *nilFlow) checkNonNil(f *ssa.Function, i int) bool {
 }
 
 // checkPair checks one direction on every return of f and returns "" or a description of the offending return.
-//   succ:    error provably non-nil, or value provably non-nil
-//   failnil: error provably nil, or value provably nil
+//
+//	succ:    error provably non-nil, or value provably non-nil
+//	failnil: error provably nil, or value provably nil
 func (nf *nilFlow) checkPair(f *ssa.Function, succ bool) string {
 	pi := nf.pairIdx[f]
 	for _, r := range returnsOf(f) {
